@@ -948,7 +948,7 @@ def gen_api():
     only breaks the obligations that depend on it"""
     return ("/- REGENERATED by tools/extract.py — aggregator of the api_symfc.py sections. -/\n"
             "import SymfcModel.Gen.ApiOrders\nimport SymfcModel.Gen.ApiDataset\n"
-            "import SymfcModel.Gen.ApiSolve\nimport SymfcModel.Gen.ApiCompute\n")
+            "import SymfcModel.Gen.ApiSolve\nimport SymfcModel.Gen.ApiCompute\nimport SymfcModel.Gen.ApiAccess\n")
 
 
 def gen_api_orders():
@@ -1137,6 +1137,71 @@ def gen_api_compute():
     return "\n".join(API_HEAD + ["def computeCutoffKeys : List (Nat × Nat) := [" +
                                  ", ".join(f"({a}, {b})" for a, b in cut_keys) + "]",
                                  "", "end Symfc.Gen"]) + "\n"
+
+
+def gen_api_access():
+    """class Symfc: the dataset setters store a fresh copy, and no method writes INTO an array (the only subscript
+    stores are the result / basis-set / cutoff dictionaries)"""
+    rel = "api_symfc.py"
+    mod = parse(rel)
+    cls = [n for n in mod.body if isinstance(n, ast.ClassDef) and n.name == "Symfc"]
+    if len(cls) != 1:
+        fail(rel, mod, "class Symfc expected")
+    cls = cls[0]
+    setters = {}
+    for m in cls.body:
+        if isinstance(m, ast.FunctionDef) and any(ast.unparse(d).endswith(".setter") for d in m.decorator_list):
+            setters[m.name] = [ast.unparse(st) for st in strip_doc(m.body)]
+    want = {"displacements": ["self._displacements = np.array(displacements, dtype='double', order='C')"],
+            "forces": ["self._forces = np.array(forces, dtype='double', order='C')"],
+            "basis_set": ["self._basis_set = basis_set"]}
+    copies = all(setters.get(k) == v for k, v in want.items()) and set(setters) == set(want)
+    rec(rel, cls, "Symfc setters: datasets are stored as fresh copies (np.array), basis_set by reference", setters)
+    allowed = {"self._force_constants", "self._basis_set", "self._cutoff"}
+    writes = []
+    for m in cls.body:
+        if not isinstance(m, ast.FunctionDef):
+            continue
+        fresh_locals = set()
+        for n in ast.walk(m):
+            if isinstance(n, (ast.Assign, ast.AnnAssign)) and getattr(n, "value", None) is not None:
+                v = n.value
+                if isinstance(v, (ast.Dict, ast.List, ast.Set)) or (isinstance(v, ast.Call) and ast.unparse(v.func) in (
+                        "dict", "list", "set")):
+                    for t in (n.targets if isinstance(n, ast.Assign) else [n.target]):
+                        if isinstance(t, ast.Name):
+                            fresh_locals.add(t.id)
+        for n in ast.walk(m):
+            tgt = None
+            if isinstance(n, ast.Subscript) and isinstance(n.ctx, (ast.Store, ast.Del)):
+                tgt = n.value
+                if isinstance(tgt, ast.Name) and tgt.id in fresh_locals:
+                    tgt = None          # a container created in this very call
+            elif isinstance(n, ast.AugAssign):
+                tgt = n.target if not isinstance(n.target, ast.Name) else None
+                if isinstance(tgt, ast.Subscript):
+                    tgt = tgt.value
+            elif isinstance(n, ast.Call):
+                fn_ = ast.unparse(n.func)
+                if fn_ in ("np.copyto", "np.put", "np.place", "np.putmask") and n.args:
+                    tgt = n.args[0]
+                elif isinstance(n.func, ast.Attribute) and n.func.attr in ("fill", "resize", "sort", "itemset", "put") \
+                        and not isinstance(n.func.value, ast.Name):
+                    tgt = n.func.value
+                elif any(k.arg == "out" for k in n.keywords):
+                    tgt = [k.value for k in n.keywords if k.arg == "out"][0]
+            if tgt is not None and ast.unparse(tgt) not in allowed:
+                writes.append((m.name, n.lineno, ast.unparse(tgt)[:60]))
+    rec(rel, cls, "Symfc: writes into arrays (other than the result / basis-set / cutoff dictionaries)",
+        [list(w) for w in writes])
+    return "\n".join(API_HEAD[:3] + ["",
+        "/-- the dataset setters store `np.array(x, dtype='double', order='C')` (a fresh copy) and nothing else -/",
+        f"def apiSettersCopy : Bool := {lean_list(copies)}",
+        "/-- (method, line, target): every in-place write of class `Symfc` into something that is not one of its",
+        "    three dictionaries (results, basis sets, cutoffs) -/",
+        "def apiArrayWrites : List (String × Nat × String) := [" +
+        ", ".join(f'("{a}", {b}, {json.dumps(c)})' for a, b, c in writes) + "]",
+        "", "end Symfc.Gen"]) + "\n"
 
 
 # ----------------------------------------------------------------------------------------
@@ -1506,6 +1571,7 @@ GENERATORS = {
     "ApiDataset": gen_api_dataset,
     "ApiSolve": gen_api_solve,
     "ApiCompute": gen_api_compute,
+    "ApiAccess": gen_api_access,
     "Api": gen_api,
     "Eig": gen_eig,
     "SumRule": gen_sumrule,
